@@ -1163,6 +1163,19 @@ func (tr *Trans) fieldAddr(fr *Frame, x *ssa.FieldAddr) {
 		return
 	}
 	ft := st.Underlying().(*types.Struct).Field(x.Field).Type()
+	if nr := tr.noReads(); nr != nil {
+		fname := st.Underlying().(*types.Struct).Field(x.Field).Name()
+		if forb, ok := nr[tr.eng.sorts.typeName(st)]; ok {
+			cond := "true"
+			for _, f := range forb {
+				if f == fname {
+					cond = "false"
+				}
+			}
+			// one obligation per field access: the accessed field is outside the forbidden (non-asserting) set
+			tr.cur.assert(cond, tr.ob("reads", tr.eng.sorts.typeName(st)+"."+fname, x.Pos(), "field "+tr.eng.sorts.typeName(st)+"."+fname+" is not one of the non-asserting keywords", tr.eng.propsFor(tr.name, "reads")))
+		}
+	}
 	if v.K == VAddr {
 		a := *v.Addr
 		if a.K == RWhole && len(a.Path) == 0 {
@@ -1564,4 +1577,14 @@ func (tr *Trans) rangeIntBoundOf(fr *Frame, al *ssa.Alloc) string {
 		}
 	}
 	return ""
+}
+
+// noReads: the read frame of the function, inherited by the closures lexically nested in it.
+func (tr *Trans) noReads() map[string][]string {
+	for f := tr.fn; f != nil; f = f.Parent() {
+		if ct := tr.eng.contractFor(f); ct != nil && ct.NoReads != nil {
+			return ct.NoReads
+		}
+	}
+	return nil
 }
